@@ -8,7 +8,7 @@
     tree is judged by correspondence (plus: well-formed, same tips).  resolve: [resolve_ok], or
     [resolve_ok_single] when the input contains single-child inner nodes. *)
 From Coq Require Import String ZArith QArith Bool Arith List.
-From GT Require Import Base.Sexp Base.UTree Base.Codec Spec.Obs Spec.Contract Model.Reroot Model.Rand Model.Collapse Judge.Common.
+From GT Require Import Base.Sexp Base.UTree Base.Codec Spec.Obs Spec.Induced Spec.Contract Model.Reroot Model.Rand Model.Collapse Judge.Common.
 Import ListNotations.
 Local Close Scope Q_scope.
 Local Open Scope string_scope.
@@ -54,8 +54,12 @@ Definition judge (c o : sexp) : verdict :=
             raw <- (x <- get "raw" o ;; dec_list dec_N x) ;;
             d <- draws (resolve_bounds t) raw ;;
             Some (Ok (resolve t (fst d)),
-                  (if in_dom then resolve_ok t g
-                   else if wf t && Nat.leb 2 (degree t) then resolve_ok_single t g else basic_ok t g), "resolve")
+                  first_some
+                    [(if in_dom then resolve_ok t g
+                      else if wf t && Nat.leb 2 (degree t) then resolve_ok_single t g else basic_ok t g);
+                     (* negative lengths read as themselves ([len0] reads them as 0) *)
+                     (if wf t && Nat.leb 2 (degree t) && negb (matrix_eqb (dist_matrix Induced.len_raw t) (dist_matrix Induced.len_raw g))
+                      then Some "a tip-to-tip distance changed (negative lengths read as themselves)" else None)], "resolve")
           else None in
       match mo with
       | None => VBad "bad case"
